@@ -31,6 +31,8 @@ ASSUMPTIONS = ["values/extensions are carried verbatim (their letter case is not
 QUICK = ["8.3.0", "score_2.0.0", "8.1.0"]
 ALL = hedenv.BUNDLED
 DUP_KINDS = ["duplicate_tag", "duplicate_group", "duplicate_among_same_base"]
+PLACEMENT_KINDS = ["toplevel_group_nested_twin", "toplevel_group_nested", "two_toplevel_tags_in_group",
+                   "taggroup_tag_at_top", "onset_extra_group", "duration_two_groups"]
 
 
 def strategy(versions):
@@ -43,7 +45,10 @@ def strategy(versions):
         ann = draw(gen_hed.annotation(v, allow_placeholder=ap, max_depth=3))
         tree = ann["tree"]
         mutation = None
-        if mode >= 7:
+        if mode == 9:
+            mut = draw(gen_hed.mutated(ann, kinds=PLACEMENT_KINDS, start=start))
+            tree, mutation = mut["tree"], mut["mutation"]
+        elif mode >= 7:
             mut = draw(gen_hed.mutated(ann, kinds=DUP_KINDS, start=start))
             tree, mutation = mut["tree"], mut["mutation"]
         elif mode >= 4:
